@@ -80,7 +80,8 @@ def match_cases(draw):
                                  "repeat1"]))
     if mode == "list" and dt not in ("i8", "f8", "S", "U"):
         mode = "plain"      # a Python list does not carry the dtype; only natively inferred ones
-    case = {"dtype": dt, "a1": a1, "a2": a2, "mode": mode}
+    case = {"dtype": dt, "a1": a1, "a2": a2, "mode": mode,
+            "layout": draw(st.sampled_from(["plain", "plain", "plain", "swapped", "swapped-view", "strided", "field"]))}
     if mode == "repeat1":
         case["dup_at"] = draw(st.integers(0, len(a1) - 1))
     return case
@@ -105,6 +106,10 @@ def check_match(case, ctx):
                 "match with a repeated value in the first array must raise ValueError, got %r", r)
         return
     arg1, arg2 = a1, a2
+    lay = case.get("layout", "plain")
+    if lay != "plain" and mode in ("plain", "presorted", "multi") and a1.dtype.kind in "iuf":
+        re1, re2 = _relayout(a1, lay), _relayout(a2, lay)
+        arg1, arg2 = re1(), re2()
     if mode == "list":
         arg1, arg2 = a1.tolist(), a2.tolist()
     if mode == "scalar1":
@@ -138,10 +143,38 @@ def check_match(case, ctx):
     require(all(x < y for x, y in zip(i2.tolist(), i2.tolist()[1:])),
             "second index array not strictly increasing: %r", i2.tolist())
     require(got == exp, "pairs differ from the model: got %r expected %r", got, exp)
+    if lay != "plain" and mode in ("plain", "presorted", "multi") and a1.dtype.kind in "iuf":
+        # the same array objects matched a second time give the same pairs (nothing was done to them)
+        fn = nu.match_multi if mode == "multi" else nu.match
+        arg1, arg2 = re1(), re2()        # the caller looks at his data again (a new view of the same buffers)
+        r2 = must(fn, arg1, arg2, presorted=True) if mode == "presorted" else must(fn, arg1, arg2)
+        got2 = list(zip(np.asarray(r2[0]).tolist(), np.asarray(r2[1]).tolist()))
+        require(got2 == exp, "a second match() call on the same %s arrays gives %r, the first gave %r", lay, got2, exp)
+
+
+def _relayout(a, lay):
+    """Same values in another memory representation (byte-swapped, a strided view, a field of a record
+    array).  Returns a function that hands out a view of the one underlying buffer each time it is called."""
+    if lay == "swapped":
+        base = a.astype(a.dtype.newbyteorder("S"))
+        return lambda: base[:]
+    if lay == "swapped-view":
+        base = np.zeros(2 * a.size + 1, dtype=a.dtype.newbyteorder("S"))
+        base[1::2] = a
+        return lambda: base[1::2]
+    if lay == "strided":
+        base = np.zeros(2 * a.size + 1, dtype=a.dtype)
+        base[1::2] = a
+        return lambda: base[1::2]
+    if lay == "field":
+        rec = np.zeros(a.size, dtype=[("pad", "u1"), ("v", a.dtype.newbyteorder("S")), ("tail", "i2")])
+        rec["v"] = a
+        return lambda: rec["v"]
+    return lambda: a
 
 
 def classify_match(case):
-    labs = ["dtype:" + case["dtype"], "mode:" + case["mode"]]
+    labs = ["dtype:" + case["dtype"], "mode:" + case["mode"], "layout:" + case.get("layout", "plain")]
     if case["mode"] in ("repeat1",):
         labs.append("nt:rejects-repeat")
         return labs
@@ -178,9 +211,14 @@ def dedup_cases(draw, with_flag):
         arr[0], arr[j] = arr[j], arr[0]
     case = {"dtype": dt, "arr": arr, "values": draw(st.booleans())}
     if with_flag:
-        fdt = draw(st.sampled_from(["i4", "i8", "f8", "u1"]))
-        case["flag_dtype"] = fdt
-        if fdt == "f8":
+        fdt = draw(st.sampled_from(["i4", "i8", "f8", "u1", "i8big", "u8big"]))
+        case["flag_dtype"] = fdt[:2]
+        if fdt in ("i8big", "u8big"):
+            # 64-bit flags that differ only in their low bits (a float64 detour cannot tell them apart)
+            base = draw(st.sampled_from([2 ** 53, 2 ** 60, 2 ** 62, 2 ** 63 - 8] if fdt == "i8big" else
+                                        [2 ** 53, 2 ** 63, 2 ** 64 - 8]))
+            fel = st.integers(0, 7).map(lambda k, b=base: b + k)
+        elif fdt == "f8":
             fel = st.one_of(st.integers(-3, 3).map(float), st.floats(-1e6, 1e6))
         elif fdt == "u1":
             fel = st.integers(0, 3)
